@@ -314,8 +314,10 @@ class MessageManager(ClientLike):
                 self.remove_module(module)
                 return False
 
-            for m in self.modules.values():
-                if m is module:
+            # iterate over a snapshot: a log message published from inside the loop can find a
+            # dead subscriber on the write side and remove it from self.modules
+            for m in list(self.modules.values()):
+                if m is module or self.modules.get(m.conn) is not m:
                     continue
 
                 if m.mod_id == module.mod_id:
